@@ -37,6 +37,9 @@ type Case struct {
 	// NegZero: a zero x or y of every other point is written as -0 (the same position
 	// as 0: the two are one point of the set, whichever sign the input carries).
 	NegZero bool `json:"negZero,omitempty"`
+	// Order records how the generated set was put in order ("" = as drawn); the
+	// points themselves are already in that order.
+	Order string `json:"order,omitempty"`
 }
 
 // the first four are used round-robin by the exhaustive loop; the wider ones are drawn
@@ -265,7 +268,67 @@ func genPtsF(t *rapid.T) (string, [][2]model.F) {
 	return shape, pts
 }
 
+// reorder puts a point set in an order a caller's data often already has: sorted by
+// (x,y) or (y,x), ascending or descending, optionally without duplicates. less
+// compares points i and j by (first, second) ordinate; swap and trunc edit the set.
+func reorder(t *rapid.T, n int, key func(i, d int) float64, swap func(i, j int), trunc func(n int)) string {
+	how := rapid.SampledFrom([]string{"", "", "", "", "asc-xy", "asc-xy-distinct", "asc-yx", "desc-xy", "desc-yx-distinct"}).Draw(t, "order")
+	if how == "" || n < 2 {
+		return ""
+	}
+	d0, d1 := 0, 1
+	if strings.Contains(how, "yx") {
+		d0, d1 = 1, 0
+	}
+	sgn := 1.0
+	if strings.HasPrefix(how, "desc") {
+		sgn = -1
+	}
+	cmp := func(i, j int) float64 {
+		if a, b := key(i, d0), key(j, d0); a != b {
+			return sgn * (a - b)
+		}
+		a, b := key(i, d1), key(j, d1)
+		if a == b {
+			return 0
+		}
+		if a < b {
+			return -sgn
+		}
+		return sgn
+	}
+	// insertion sort through swap (n <= a few hundred)
+	for i := 1; i < n; i++ {
+		for j := i; j > 0 && cmp(j-1, j) > 0; j-- {
+			swap(j-1, j)
+		}
+	}
+	if strings.HasSuffix(how, "distinct") {
+		w := 1
+		for i := 1; i < n; i++ {
+			if cmp(w-1, i) != 0 {
+				swap(w, i)
+				w++
+			}
+		}
+		trunc(w)
+	}
+	return how
+}
+
 func genCase(t *rapid.T) Case {
+	c := genCase0(t)
+	if c.PtsF != nil {
+		pts := c.PtsF
+		c.Order = reorder(t, len(pts), func(i, d int) float64 { return pts[i][d].V() }, func(i, j int) { pts[i], pts[j] = pts[j], pts[i] }, func(n int) { c.PtsF = pts[:n] })
+	} else {
+		pts := c.Pts
+		c.Order = reorder(t, len(pts), func(i, d int) float64 { return float64(pts[i][d]) }, func(i, j int) { pts[i], pts[j] = pts[j], pts[i] }, func(n int) { c.Pts = pts[:n] })
+	}
+	return c
+}
+
+func genCase0(t *rapid.T) Case {
 	if rapid.IntRange(0, 3).Draw(t, "floatmode") == 0 {
 		shape, pts := genPtsF(t)
 		return Case{
@@ -393,6 +456,24 @@ func prop(c Case) error {
 	}
 	// the same array refilled with other points (the set reflected through the origin
 	// and shifted) and handed over again: nothing may be remembered about the array
+	// (first handed over twice more as it is - what is remembered may only be used from
+	// the second or third time on - then refilled keeping its first and last point, then
+	// refilled entirely)
+	for i := 0; i < 2; i++ {
+		_ = xy.ConvexHullFlat(geom.Layout(c.Layout), buf)
+	}
+	c1 := c
+	c1.Pts = make([][2]int64, len(c.Pts))
+	for i, p := range c.Pts {
+		c1.Pts[i] = [2]int64{3 - p[0], -7 - p[1]}
+		if i == 0 || i == len(c.Pts)-1 {
+			c1.Pts[i] = p
+		}
+	}
+	copy(buf, flatOf(c1))
+	if err := hullOf(c1, buf); err != nil {
+		return fmt.Errorf("the input array refilled with all but the first and last point reflected and handed over again: %v", err)
+	}
 	c2 := c
 	c2.Pts = make([][2]int64, len(c.Pts))
 	for i, p := range c.Pts {
@@ -580,6 +661,12 @@ func classify(c Case) ([]string, bool) {
 		if geom.Layout(c.Layout).Stride() > 4 {
 			cl = append(cl, "stride>4")
 		}
+		if c.Order != "" {
+			cl = append(cl, "order:"+c.Order)
+			if len(c.PtsF) >= 32 {
+				cl = append(cl, "ordered>=32")
+			}
+		}
 		return cl, len(c.PtsF) >= 3
 	}
 	n := len(c.Pts)
@@ -613,6 +700,12 @@ func classify(c Case) ([]string, bool) {
 	}
 	if n > 50 {
 		cl = append(cl, "n>50")
+	}
+	if c.Order != "" {
+		cl = append(cl, "order:"+c.Order)
+		if n >= 32 {
+			cl = append(cl, "ordered>=32")
+		}
 	}
 	if len(distinct) > 50 {
 		cl = append(cl, "distinct>50")
